@@ -8,5 +8,6 @@ TMPBIN="$ROOT/bin/verifchk.$$"
 ( cd "$ROOT/harness" && go build -tags verif -o "$TMPBIN" ./cmd/verifchk ) >"$ROOT/bin/build.$$.log" 2>&1 || {
   echo "HARNESS-ERROR: harness does not build against /repo's working tree"; cat "$ROOT/bin/build.$$.log"; rm -f "$ROOT/bin/build.$$.log" "$TMPBIN"; exit 2; }
 rm -f "$ROOT/bin/build.$$.log"
+[ -x "$ROOT/bin/maporder" ] || ( cd "$ROOT/tools/maporder" && go build -o "$ROOT/bin/maporder" . ) || { echo "HARNESS-ERROR: cannot build the maporder tool"; exit 2; }
 trap 'rm -f "$TMPBIN"' EXIT
 VERIF_ROOT="$ROOT" "$TMPBIN" "$@"
